@@ -6,6 +6,7 @@ stack of contexts in an ARBITRARY pre-state and with its sub-evaluators replaced
 arbitrary values (induction hypothesis).  On every path, including early exits, the scope afterwards must hold exactly
 the contexts it held before, and while a sub-evaluator runs the caller's contexts must still be there underneath.
 """
+import json
 import re
 
 import z3
@@ -55,7 +56,7 @@ SCOPE_MODELS = [
     (R(r"^<Ref(Mut)?<'_, .*> as Deref(Mut)?>::deref(_mut)?$"), lambda ex, st, c, a, d: iter([(st, a[0])])),
     (R(r"^core::slice::<impl \[.*\]>::last(_mut)?$"), m_slice_last),
     (R(r"^BTreeMap::<.*>::contains_key::<.*>$"), m_btree_contains),
-    (R(r"^<Name as From<&str>>::from$|^<&str as Into<Name>>::into$"), m_name_from),
+    (R(r"^<(dmntk_feel::)?Name as From<&str>>::from$|^<&str as Into<(dmntk_feel::)?Name>>::into$"), m_name_from),
     (R(r"^format$|^std::fmt::format$|^alloc::fmt::format$"), m_format_stub),
 ]
 
@@ -180,6 +181,7 @@ def run(check, mirror, tier):
     jobs.append(lambda c: decide(c, crate, "scope_balance/build_filter", setup_filter, post_common, lambda i, rb: replay_scope("filter", i, rb), rb,
                                  models=MODELS, unwind=6 * (L + 2), describe=lambda m, inputs: {k: model_value(m, v) for k, v in inputs.items() if not k.startswith("_")},
                                  budget_s=900, min_paths=2, timeout_ms=20000))
+    parser_jobs(check, mirror, rb, jobs, tier)
     run_parallel(check, jobs)
 
 
@@ -203,3 +205,194 @@ def replay_scope(which, i, rb):
              "filter": "[{item: 1, q: 2}, {q: 3}, 7][q > 0]"}
     _, out, _ = replay_call(rb, ["scope_after", "{outer: 10, n: 5}", exprs[which]])
     return "CHANGED" in out, "%s on scope [{n: 5, outer: 10}] -> %s" % (exprs[which], out[:200])
+
+
+# ----------------------------------------------------------------------------- parser side: a successful parse leaves the parsing scope as it found it
+
+
+PARSE_TEXT = {"For": "for", "In": "in", "Return": "return", "Ellipsis": "..", "Comma": ",", "Some": "some", "Every": "every", "Satisfies": "satisfies",
+              "LeftBrace": "{", "RightBrace": "}", "Colon": ":", "Function": "function", "LeftParen": "(", "RightParen": ")", "LeftBracket": "[",
+              "RightBracket": "]", "If": "if", "Then": "then", "Else": "else", "Plus": "+"}
+
+NESTED = {"name": ["Name"],
+          "for": ["For", "Name", "In", "Name", "Return", "Name"],
+          "some": ["Some", "Name", "In", "Name", "Satisfies", "Name"],
+          "every": ["Every", "Name", "In", "Name", "Satisfies", "Name"],
+          "context": ["LeftBrace", "Name", "Colon", "Name", "RightBrace"],
+          "function": ["Function", "LeftParen", "Name", "RightParen", "Name"],
+          "list": ["LeftBracket", "Name", "Comma", "Name", "RightBracket"],
+          "if": ["If", "Name", "Then", "Name", "Else", "Name"],
+          "sum": ["Name", "Plus", "Name"]}
+SUBST = ["For", "In", "Return", "Some", "Every", "Satisfies", "Name", "Comma", "LeftBrace", "RightBrace", "Colon", "Function", "LeftParen", "RightParen"]
+
+
+def _quantified(c):
+    toks = [c["q"]]
+    for j in range(c["n"]):
+        toks += (["Comma"] if j else []) + ["Name", "In", "Name"] + (["Ellipsis", "Name"] if c["range"] and j == 0 else [])
+    return toks + [c["k"]] + NESTED[c["body"]]
+
+
+def _context(c):
+    toks = ["LeftBrace"]
+    for j in range(c["n"]):
+        toks += (["Comma"] if j else []) + ["Name", "Colon"] + (NESTED[c["value"]] if j == c["at"] else ["Name"])
+    return toks + ["RightBrace"]
+
+
+def _function(c):
+    toks = ["Function", "LeftParen"]
+    for j in range(c["n"]):
+        toks += (["Comma"] if j else []) + ["Name"]
+    return toks + ["RightParen"] + NESTED[c["body"]]
+
+
+def _substituted(c):
+    toks = list(c["base"])
+    toks[c["pos"]] = c["tok"]
+    return toks
+
+
+# family -> (selector domains, token-list builder, selector combinations that must be seen accepted (vacuity witnesses))
+PARSE_FAMILIES = {
+    "quantified": (dict(q=["For", "Some", "Every"], k=["Return", "Satisfies"], n=[1, 2, 3], range=[False, True], body=["name"]), _quantified,
+                   [dict(q="For", k="Return", n=3), dict(q="For", k="Return", range=True), dict(q="Some", k="Satisfies", n=2), dict(q="Every", k="Satisfies", n=3)]),
+    "quantified_body": (dict(q=["For", "Some", "Every"], k=["Return", "Satisfies"], n=[1], range=[False], body=sorted(NESTED)), _quantified,
+                        [dict(q="For", body=b) for b in sorted(NESTED)] + [dict(q="Every", body="context"), dict(q="Some", body="for")]),
+    "context": (dict(n=[0, 1, 2, 3], at=[0, 1, 2], value=sorted(NESTED)), _context,
+                [dict(n=0), dict(n=3, at=1, value="for"), dict(n=2, at=0, value="context"), dict(n=3, at=2, value="function"), dict(n=1, value="every")]),
+    "function": (dict(n=[0, 1, 2, 3], body=sorted(NESTED)), _function,
+                 [dict(n=0, body="name"), dict(n=3, body="for"), dict(n=2, body="context"), dict(n=1, body="function")]),
+    "for_substituted": (dict(base=[["For", "Name", "In", "Name", "Comma", "Name", "In", "Name", "Return", "Name"]], pos=list(range(10)), tok=SUBST), _substituted,
+                        [dict(pos=0, tok="For"), dict(pos=5, tok="Name"), dict(pos=8, tok="Return")]),
+    "context_substituted": (dict(base=[["LeftBrace", "Name", "Colon", "For", "Name", "In", "Name", "Return", "Name", "RightBrace"]], pos=list(range(10)), tok=SUBST),
+                            _substituted, [dict(pos=0, tok="LeftBrace"), dict(pos=3, tok="For"), dict(pos=9, tok="RightBrace")]),
+}
+THOROUGH_FAMILIES = {
+    "quantified_deep": (dict(q=["For", "Some", "Every"], k=["Return", "Satisfies"], n=[1, 2, 3], range=[False, True], body=sorted(NESTED)), _quantified,
+                        [dict(q="For", n=3, body="for"), dict(q="Every", n=2, body="context")]),
+    "function_substituted": (dict(base=[["Function", "LeftParen", "Name", "Comma", "Name", "RightParen", "For", "Name", "In", "Name", "Return", "Name"]],
+                                  pos=list(range(12)), tok=SUBST), _substituted, [dict(pos=0, tok="Function")]),
+}
+
+
+def parser_jobs(check, mirror, rb, jobs, tier="quick"):
+    import itertools
+    import rsenum
+    from checks import C06 as c06
+    from mir.sym import ok
+    crate = MirCrate(mirror, ["feel-parser", "feel"], overflow_checks=True)
+    g = c06.Grammar(mirror)
+    pf = rsenum.struct_fields(mirror.read("feel-parser/src/parser.rs"), "Parser")
+    lf = rsenum.struct_fields(mirror.read("feel-parser/src/lexer.rs"), "Lexer")
+    check.bounds += ["parser side: token streams of the families %s (selectors symbolic: keyword, closing keyword, number of iteration contexts / entries / "
+                     "parameters 0..3, nested body among %s, one symbolic token substituted at a symbolic position); name tokens carry distinct opaque names; "
+                     "the initial parsing scope holds one context with symbolic entries" % (sorted(PARSE_FAMILIES), sorted(NESTED))]
+    check.assumptions += ["parser side: Lexer::next_token replaced by a cursor over the symbolic token stream (the lexer's own scope bookkeeping methods "
+                          "push_to_scope / pop_from_scope / add_name_to_scope are the real code); error constructors return an opaque error"]
+
+    def setup_for(fname, fam):
+        domains, build, _ = fam
+        keys = sorted(domains)
+
+        def setup(ex, st):
+            sref, ctxs = scope_value(ex, st, 1)
+            sel = {}
+            for k in keys:
+                v = ex.fresh_int(st, "u8", "sel_" + k, constrain=False)
+                ex.assume(st, z3.And(v.e >= 0, v.e < len(domains[k])))
+                sel[k] = v.e
+            streams = []
+            for combo in itertools.product(*[range(len(domains[k])) for k in keys]):
+                c = {k: domains[k][i] for k, i in zip(keys, combo)}
+                if "at" in c and c["n"] and c["at"] >= c["n"]:
+                    continue
+                cond = z3.And([sel[k] == i for k, i in zip(keys, combo)])
+                streams.append((cond, [g.code("StartExpression")] + [g.code(t) for t in build(c)] + [g.code("YyEof")]))
+            if "at" in domains:  # `at` ranges over the entries that exist
+                ex.assume(st, z3.Or(sel["n"] == 0, sel["at"] < sel["n"]))
+            longest = max(len(t) for _, t in streams)
+            eof = g.code("YyEof")
+            codes = []
+            for pos in range(longest):
+                e = z3.IntVal(eof)
+                for cond, t in streams:
+                    c = t[pos] if pos < len(t) else eof
+                    e = z3.If(cond, z3.IntVal(c), e)
+                codes.append(z3.simplify(e))
+            other_tv = En("TokenValue", z3.IntVal(g.tv["YyEmpty"]), {"YyEmpty": ()})
+            lvals = {"scope": sref, "start_token_type": Opaque("none"), "input": VecV(z3.IntVal(0), (), "char"), "position": mk_int(0, "usize"),
+                     "unary_tests": mk_bool(False), "between": mk_bool(False), "type_name": mk_bool(False), "till_in": mk_bool(False)}
+            missing = [f for f in lf if f not in lvals]
+            if missing:
+                raise MirUnsupported("Lexer has fields the token-cursor model does not know: %s" % missing)
+            lexer = Adt("struct", "Lexer", [lvals[f] for f in lf])
+            pvals = {"scope": sref, "input": StrV("<tokens>"), "yy_trace": mk_bool(False), "yy_lexer": lexer, "yy_char": mk_int(-2, "i16"), "yy_value": other_tv,
+                     "yy_token": mk_int(-2, "i16"), "yy_state": mk_int(0, "usize"), "yy_n": mk_int(0, "i16"), "yy_len": mk_int(0, "i16"),
+                     "yy_state_stack": VecV(z3.IntVal(1), (mk_int(0, "usize"),)), "yy_value_stack": VecV(z3.IntVal(1), (other_tv,)),
+                     "yy_node_stack": VecV(z3.IntVal(0), ())}
+            parser = Adt("struct", "Parser", [pvals[f] for f in pf])
+            pos_idx = lf.index("position")
+
+            def m_next_token(ex, st, callee, args, dest_ty):
+                r = args[0]
+                lex = ex.read(st, r.cell, r.projs)
+                pos = ex.concrete(lex.fields[pos_idx].e)
+                code = codes[pos] if pos < len(codes) else z3.IntVal(eof)
+                f2 = list(lex.fields)
+                f2[pos_idx] = mk_int(pos + 1, "usize")
+                ex.write(st, r.cell, r.projs, Adt("struct", "Lexer", f2))
+                val = En("TokenValue", z3.IntVal(g.tv["Name"]), {"Name": (Opaque("Name", z3.IntVal(300 + pos)),)})
+                yield st, ok(Adt("tuple", None, (En("TokenType", code, {}), val)))
+
+            def m_action(ex, st, callee, args, dest_ty):
+                # lalr::reduce is generic over `impl ReduceActions`: the only implementor is the parser
+                return ex.call(st, "<Parser as ReduceActions>::" + callee.rsplit("::", 1)[1], args, dest_ty)
+            ex.models = [(re.compile(r"^Lexer::<'_>::next_token$"), m_next_token),
+                         (re.compile(r"^<impl ReduceActions as lalr::ReduceActions>::\w+$"), m_action),
+                         (re.compile(r"^parser::errors::(syntax_error|invalid_parse_result|err_pop)$|(^|::)err_pop$"), lambda ex, st, c, a, d: iter([(st, Opaque("Error", info=c))])),
+                         (re.compile(r"^std::io::_print$"), lambda ex, st, c, a, d: iter([(st, UNIT)]))] + ex.models
+            pcell = ex.new_cell(st, parser, "parser")
+            return "Parser::parse", [Ref(pcell)], {"_sref": sref, "_ctxs": ctxs, "_sel": sel, "family": fname}
+        return setup
+
+    def post_for(fam):
+        domains, build, need = fam
+
+        def post(ex, o, inputs):
+            accepted = ex.concrete(o.value.disc) == 0
+            if not accepted:
+                return []
+            props = [("a successful parse leaves the parsing scope as it found it", scope_unchanged(ex, o.st, inputs["_sref"], inputs["_ctxs"]))]
+            for w in need:
+                props.append(("reach:" + json.dumps(w, sort_keys=True), z3.And([inputs["_sel"][k] == domains[k].index(v) for k, v in w.items()])))
+            return props
+        return post
+
+    def describe_for(fam):
+        domains, build, _ = fam
+
+        def describe(m, inputs):
+            c = {k: domains[k][int(model_value(m, e) or 0)] for k, e in inputs["_sel"].items()}
+            return {"family": inputs["family"], "choice": c, "tokens": build(c)}
+        return describe
+
+    fams = dict(PARSE_FAMILIES)
+    if tier == "thorough":
+        fams.update(THOROUGH_FAMILIES)
+    for fname, fam in fams.items():
+        jobs.append(lambda c, fname=fname, fam=fam: decide(
+            c, crate, "parser_scope/%s" % fname, setup_for(fname, fam), post_for(fam), replay_parse_scope, rb,
+            models=SCOPE_MODELS + fv.VALUE_MODELS, unwind=300, describe=describe_for(fam), budget_s=1500, min_paths=2, timeout_ms=20000,
+            need_reach=["reach:" + json.dumps(w, sort_keys=True) for w in fam[2]]))
+
+
+def replay_parse_scope(i, rb):
+    names = iter(["v", "xs", "w", "ys", "body", "q", "a", "b", "c", "d", "e", "f", "g", "h"])
+    # bound names for the domains / bodies so the text parses; iteration variables are fresh names
+    words = []
+    for t in i["tokens"]:
+        words.append(next(names) if t == "Name" else PARSE_TEXT[t])
+    text = " ".join(words)
+    _, out, _ = replay_call(rb, ["scope_after", "{xs: [1], ys: [2], body: 3, q: 4, w: 5, v: 6, partial: 7, a: 1, b: 2, c: 3, d: 4, e: 5, f: 6, g: 7, h: 8}", text])
+    return "CHANGED" in out, "parsing `%s` -> %s" % (text, out[:200])
